@@ -14,7 +14,7 @@ CONSTANTS
     Mode         \* "trees" (C02) | "soup" (C03: arbitrary token sequences) | "args" (argument lists: every sequence over
                  \* operands, the comma, the name-value operator and BinReps of length <= MaxBin inside every bracket form)
 
-BaseTable == IF Base = "legacy" THEN Legacy ELSE Standard
+BaseTable == IF Base = "legacy" THEN Legacy ELSE IF Base = "delegates" THEN <<<<"()", "deleg">>>> \o Standard ELSE Standard
 
 RECURSIVE ApplyCalls(_, _)
 \* [st |-> "ok" | "notfound", ops]
@@ -69,7 +69,8 @@ Soups(ops) == UNION {[1..k -> SoupTokens(ops)] : k \in 0..MaxBin}
 
 \* argument lists in every bracket form
 ArgAlphabet(ops) == {"a", "b", ",", "=>"} \cup (BinReps \cap Syms(ops)) \cup (PreReps \cap Syms(ops))
-Brackets == { <<<<"f(">>, <<")">>>>, <<<<"[">>, <<"]">>>>, <<<<"c", "[">>, <<"]">>>>, <<<<"{">>, <<"}">>>>, <<<<"c", ".", "f(">>, <<")">>>>,
+Brackets == IF Delegates(BaseTable) THEN { <<<<"c", "(">>, <<")">>>>, <<<<"c", "+", "d", "(">>, <<")">>>>, <<<<"-", "c", "(">>, <<")", "(", ")">>>>,
+                                            <<<<"f(", "c", "(">>, <<")", ")">>>>, <<<<"c", "[", "d", "]", "(">>, <<")", ".", "f(", ")">>>> } ELSE { <<<<"f(">>, <<")">>>>, <<<<"[">>, <<"]">>>>, <<<<"c", "[">>, <<"]">>>>, <<<<"{">>, <<"}">>>>, <<<<"c", ".", "f(">>, <<")">>>>,
               <<<<"d", "+", "f(">>, <<")", "[", "c", "]">>>> }
 ArgSeqs(ops) == UNION { { br[1] \o s \o br[2] : s \in [1..k -> ArgAlphabet(ops)], br \in Brackets } : k \in 0..MaxBin }
 
